@@ -18,6 +18,6 @@ def run(ctx):
     r.not_decided = ["Biopython's shift arithmetic for compound and fuzzy locations", "the 'conversely' direction follows from (c) only"]
     run_kernels(ctx, ["K5", "K7", "K8", "K3", "K14"], "C08")
     from ..rules_flow import getitem_rule
-    getitem_rule(ctx, "C08.slice")
+    ctx.guard(getitem_rule, ctx, "C08.slice")
     eff, sites = assembly_write_set(ctx, "C08.write-set")
-    feature_writers(ctx, "C08", eff, sites)
+    ctx.guard(feature_writers, ctx, "C08", eff, sites)
